@@ -44,6 +44,7 @@ RtVals(k, n) ==
     [] k = "enum" -> {One(<<s>>) : s \in EnumSyms}
     [] k = "vecstr" -> UNION {[1..m -> TokStr(1)] : m \in 0..VecMax}
     [] k = "vecu32" -> UNION {[1..m -> {<<"#0">>, <<"#7">>, <<"#max">>}] : m \in 0..VecMax}
+    [] k = "tup2u32" -> [1..2 -> {<<"#0">>, <<"#7">>, <<"#max">>}]
 
 RECURSIVE RtProd(_, _, _)
 RtProd(fs, i, n) == IF i > Len(fs) THEN {<<>>}
@@ -62,7 +63,7 @@ RtTypeVals(ty) == CASE ty = "Ints" -> IntsVals(0)
                     [] ty = "Map" -> MapVals(0)
                     [] ty = "Str1" -> RtProd(Catalogue[ty], 1, RtLen)
                     [] OTHER -> RtProd(Catalogue[ty], 1, RtLen2)
-RtTypes == {"Ints", "Floats", "Scal", "Str1", "Str2", "Ch", "Opt", "OptEnd", "En", "Nt", "SeqS", "SeqN", "Map"}
+RtTypes == {"Ints", "Floats", "Scal", "Str1", "Str2", "Ch", "Opt", "OptEnd", "En", "Nt", "SeqS", "SeqN", "Seq2", "TupSeq", "Map"}
 
 \* ------------------------------------------------------------------ decode
 WTok(ctx) == {[c |-> c, e |-> e, s |-> ""] : c \in Classes, e \in {"U", "L"}}
@@ -113,7 +114,9 @@ RECURSIVE PairsOf(_, _, _, _)
 PairsOf(choice, perm, i, ke) ==
   IF i > Len(perm) THEN <<>>
   ELSE (IF choice[perm[i]].present THEN <<Pair(Key(choice[perm[i]].f, ke), choice[perm[i]].v)>> ELSE <<>>) \o PairsOf(choice, perm, i + 1, ke)
+\* (the third one: an unknown key whose value is not text at all -- escapes that do not form UTF-8; it is ignored like the others)
 ExtraPairs(ctx) == {Pair(Key("zz", "r"), <<>>), Pair(Key("zz", "U"), <<[c |-> "al", e |-> "r", s |-> ""]>>),
+                    Pair(Key("zq", "r"), <<SymTok("lit:caf%E9%FF%80", "r")>>),
                     Pair(<<[c |-> "u2", e |-> "L", s |-> ""]>>, <<[c |-> "amp", e |-> "U", s |-> ""], [c |-> "eq", e |-> "L", s |-> ""]>>)}
 InsertAt(ps, k, x) == SubSeq(ps, 1, k) \o <<x>> \o SubSeq(ps, k + 1, Len(ps))
 Shaped(ty, ctx) ==
